@@ -257,7 +257,11 @@ func init() {
 					b.App.Query(abci.RequestQuery{Path: "/panacea.aol.v2.Query/Topics", Data: nil})
 					time.Sleep(time.Duration(rng.Intn(3)) * time.Millisecond)
 					ra, ha := runBlock(a, t, txs)
+					// replica b also lives in another time zone (process-local setting, like GOMAXPROCS)
+					oldLocal := time.Local
+					time.Local = time.FixedZone("KST", 9*3600)
 					rb, hb := runBlock(b, t, txs)
+					time.Local = oldLocal
 					if strings.Join(ra, "\n") != strings.Join(rb, "\n") {
 						return "fail #deliver-results-differ"
 					}
@@ -503,6 +507,7 @@ func init() {
 	streams["conc"] = func(dir string, rng *rand.Rand, n int, tier string) {
 		s := NewStream(dir, "conc")
 		defer s.Close(dir, "conc")
+		monC20ConcurrentValidation(s)
 		accts := rtAccts()
 		a, err := NewChain(dbm.NewMemDB(), tmpHome(), accts, 100000, nil)
 		if err != nil {
